@@ -580,7 +580,10 @@ pub fn surface(sim: &Sim, mark: &ForkMark) -> Surface {
 						&& c.open.common_fields.channel_type.as_ref().map(|t| t.supports_anchors_zero_fee_htlc_tx() || t.supports_anchor_zero_fee_commitments()).unwrap_or(false)
 				})
 			});
-			let bump = ins.len() < tx.input.len() || spends_anchor_funding;
+			// ... and so do the children spending an anchor output (330 sat keyed anchor / <= 240 sat shared anchor),
+			// which may need no wallet input at all when the anchor's own value covers the fee
+			let spends_anchor = tx.input.iter().any(|inp| sim.chain.seen.get(&inp.previous_output.txid).and_then(|t| t.output.get(inp.previous_output.vout as usize)).map(|o| o.value.to_sat() <= 330).unwrap_or(false));
+			let bump = ins.len() < tx.input.len() || spends_anchor_funding || spends_anchor;
 			let class = match (bump, k < mark.bc_pos[i]) {
 				(false, true) => "broadcasts-before",
 				(false, false) => "broadcasts",
